@@ -1,6 +1,92 @@
-(* Runner for property C20: wire arguments -> model -> wire result. Filled in by the C20 model. *)
+(* Runner for C20: tax summaries and payments.
+   operand := ( doc <doc> ) | ( tt <cats> <sum> <precise> )
+   cats := ( ( x<code> retained rates amount surcharge? precise ) ... )
+   rate := ( x<key> x<country> ext pct? sur? base amount suramount )
+   ops: negate A | merge A B ... (left fold) | calc rule c A | pay <payment>
+   payment := ( keep rule curid c ( ( id subunits ) ... ) rates lines )
+   line := ( cur? debit? credit? docref? )  cur? := ( ) | ( id ) ; docref? := ( ) | ( cur? tt? ) ; tt? := ( ) | ( cats sum precise ) *)
 From Coq Require Import ZArith List String Bool.
-From Verif Require Import Base.Wire.
+From Verif Require Import Base.Wire Num.Amount Calc.Doc Calc.Calc Calc.Merge Run.RunCalc.
 Import ListNotations.
+Open Scope Z_scope.
 
-Definition run_c20 (args : list V) : list V := [verr "not-implemented"].
+Definition d_rt (v : V) : rate_total :=
+  let l := vl v in
+  mkRT (vs_ (nthv 0 l)) (vs_ (nthv 1 l)) (d_ext (nthv 2 l)) (d_oamt (nthv 3 l)) (d_oamt (nthv 4 l))
+       (d_amt (nthv 5 l)) (d_amt (nthv 6 l)) (d_amt (nthv 7 l)).
+Definition d_ct (v : V) : cat_total :=
+  let l := vl v in
+  mkCT (vs_ (nthv 0 l)) (vbool (nthv 1 l)) (map d_rt (vl (nthv 2 l))) (d_amt (nthv 3 l)) (d_oamt (nthv 4 l)) (d_amt (nthv 5 l)).
+Definition d_tt (l : list V) : tax_total :=
+  mkTT (map d_ct (vl (nthv 0 l))) (d_amt (nthv 1 l)) (d_amt (nthv 2 l)).
+
+Definition operand (v : V) : option tax_total :=
+  match vl v with
+  | o :: rest =>
+    if is_op o "doc" then
+      match calculate (d_doc (nthv 0 rest)) with
+      | Totals t => Some (mkTT (t_cats t) (t_taxsum t) (t_taxsum_precise t))
+      | _ => None
+      end
+    else if is_op o "tt" then Some (d_tt rest)
+    else None
+  | [] => None
+  end.
+
+Definition e_tt (t : tax_total) : list V :=
+  [VS (bs "ok"); VL (map e_ct (tt_cats t)); e_amt (tt_sum t); e_amt (precise_or (tt_precise t) (tt_sum t));
+   VL (map (fun c => e_amt (precise_or (ct_precise c) (ct_amount c))) (tt_cats t))].
+
+Fixpoint operands (vs : list V) : option (list tax_total) :=
+  match vs with
+  | [] => Some []
+  | v :: r => match operand v, operands r with Some t, Some ts => Some (t :: ts) | _, _ => None end
+  end.
+
+Definition d_pl (v : V) : pay_line :=
+  let l := vl v in
+  mkPL (match nthv 0 l with VL [VI k] => Some k | _ => None end) (d_oamt (nthv 1 l)) (d_oamt (nthv 2 l))
+       (match vl (nthv 3 l) with
+        | [] => None
+        | dc :: tv :: _ => Some (match dc with VL [VI k] => Some k | _ => None end,
+                                 match vl tv with [] => None | l2 => Some (d_tt l2) end)
+        | _ => None
+        end).
+
+Fixpoint lookup_sub (tbl : list (Z * nat)) (k : Z) : nat :=
+  match tbl with [] => 2%nat | (i, s) :: r => if i =? k then s else lookup_sub r k end.
+
+Definition run_c20 (args : list V) : list V :=
+  match args with
+  | o :: rest =>
+    if is_op o "negate" then
+      match operands rest with Some [t] => e_tt (tt_negate t) | _ => [verr "operand"] end
+    else if is_op o "merge" then
+      match operands rest with
+      | Some (t :: ts) => e_tt (fold_left tt_merge ts t)
+      | _ => [verr "operand"]
+      end
+    else if is_op o "merge_negate" then
+      match operands rest with Some [t] => e_tt (tt_merge t (tt_negate t)) | _ => [verr "operand"] end
+    else if is_op o "calc" then
+      match rest with
+      | r :: c :: a :: _ => match operand a with
+                            | Some t => e_tt (tt_calculate (vbool r) (vnat c) t)
+                            | None => [verr "operand"]
+                            end
+      | _ => [verr "operand"]
+      end
+    else if is_op o "pay" then
+      let l := vl (nthv 0 rest) in
+      let tbl := map (fun p => (vz (nthv 0 (vl p)), vnat (nthv 1 (vl p)))) (vl (nthv 4 l)) in
+      let rates := map (fun p => mkXrate (vz (nthv 0 (vl p))) (vz (nthv 1 (vl p))) (d_amt (nthv 2 (vl p)))) (vl (nthv 5 l)) in
+      match pay_calc (vbool (nthv 0 l)) (vbool (nthv 1 l)) rates (vz (nthv 2 l)) (vnat (nthv 3 l)) (lookup_sub tbl)
+                     (map d_pl (vl (nthv 6 l))) with
+      | None => [verr "calc"]
+      | Some po =>
+        [VS (bs "ok"); VL (map e_amt (po_lines po)); e_oamt (po_total po);
+         match po_tax po with Some t => VL (e_tt t) | None => VL [] end]
+      end
+    else [verr "unknown-c20-op"]
+  | [] => [verr "unknown-c20-op"]
+  end.
